@@ -17,7 +17,7 @@ import sys
 sys.path.insert(0, os.path.dirname(__file__))
 import pipelines as P  # noqa
 import sympool  # noqa
-from common import dump, to_json  # noqa
+from common import dump, hash_json, to_json  # noqa
 
 FIELDS = ['image', 'mask', 'spacing']
 IDS = ['a', 'b', 'c', 'd', 'e']
@@ -193,6 +193,15 @@ def run_case(case, work, with_model=True):
             o['log'] = [[n, [to_json(x) for x in a], [[kk, to_json(x)] for kk, x in k]] for n, a, k in sympool.CALLS]
             o['trace'] = [list(x) for x in P.TRACE]
             o['bad'] = [pending_bad] if pending_bad else []
+            # the node hash of the output, right after the call, on the same caches
+            sympool.BAD.clear()
+            P.INDEX.clear()
+            try:
+                h, _ = g.get_hash(op['key'])
+                o['hash'] = hash_json(h.value, P.fname)
+                o['digest'] = _digest(h)
+            except BaseException:  # noqa
+                o['hash'] = {'exc': True}
             # the oracle: the same pipeline without cache layers, with and without the injected failure
             ref = refs[op['variant']]._compile(fs)
             P.INDEX.clear()
@@ -222,6 +231,12 @@ def run_case(case, work, with_model=True):
     for r in roots:
         shutil.rmtree(r, ignore_errors=True)
     return case
+
+
+def _digest(h):
+    import hashlib
+    from tarn.pickler import dumps
+    return hashlib.sha256(dumps(h.value)).hexdigest()
 
 
 def _cls(e):
